@@ -121,6 +121,9 @@ def run(F, R):
         if _lf:
             _c3.e9_can_pop(F, R, M, byrole['can_pop'][0], _lf, rule='N7')
     _c3.e8_helper_token(F, R, M, roles, rule='N8')
+    # N9: "the device was told": each transport's notify writes the index of the queue that has new buffers (into the
+    # notification register / that queue's slot of the notification window) - C10.M2 / C11.W3 notify traces
+    transport_registration_rule(F, R, 'N9', op='notify')
     from . import C08 as _c8
     _qctor = [b['id'] for b in queue_entry_points(F, M) if b.get('sig', '').find('-> core::result::Result<%s<' % M.queue_adt) >= 0]
     _c8.h1_constructors(F, RuleProxy(R, {'H3': 'N6'}, only=lambda inst: inst.endswith('arg-29')), M, _qctor)
